@@ -11,7 +11,7 @@ from rv import ToolError, log
 # property -> [(suite, profile)]
 PLAN = {
     "C01": [("core", "dev"), ("ctl", "dev"), ("shape", "dev"), ("fit", "dev")],
-    "C03": [("shape", "dev"), ("core", "dev"), ("fit", "dev")],
+    "C03": [("shape", "dev"), ("core", "dev"), ("fit", "dev"), ("ctl", "dev")],
     "C04": [("sizes", "dev"), ("sizes", "release"), ("core", "dev"), ("ro", "dev")],
     "C05": [("reopen", "dev")],
     "C08": [("core", "dev"), ("ctl", "dev"), ("reopen", "dev")],
